@@ -6,6 +6,7 @@ concrete Python values where the program is concrete and z3 terms where it is sy
 import ast
 import builtins as _pybuiltins
 import itertools
+import re
 import time
 from fractions import Fraction
 
@@ -1481,7 +1482,7 @@ class Interp:
         elif isinstance(f, FuncVal):
             yield from self.call_func(f, args, kwargs, st, node)
         elif isinstance(f, Builtin):
-            yield from f.fn(self, st, list(args), dict(kwargs))
+            yield from self.call_builtin(f, args, kwargs, st)
         elif isinstance(f, ClassVal):
             yield from self.instantiate(f, args, kwargs, st)
         elif isinstance(f, BuiltinClass):
@@ -1501,6 +1502,35 @@ class Interp:
             raise Unsupported("call of unmodelled %s" % f.desc)
         else:
             raise Unsupported("call of %r" % (f,))
+
+    _BINDING_ERROR = re.compile(
+        r"\(\) (got an unexpected keyword argument|got multiple values for (keyword )?argument|takes (no|\d+|from \d+ to \d+|at (most|least) \d+) "
+        r"(positional |keyword )?arguments?\b|missing \d+ required (positional|keyword-only) arguments?\b|got some positional-only arguments)"
+    )
+
+    def call_builtin(self, f, args, kwargs, st):
+        """Invoke a modelled callable.  The code under analysis may pass an argument / keyword the model does not know
+        (ndarray.ravel(order="K"), sorted(x, key=...) ...): python then fails to BIND the model function and raises TypeError
+        in the model's own top frame.  That is "outside the modelled subset" (Unsupported -> lemma undecided), not an
+        engine crash.  Only that case is converted: the TypeError must come from the call machinery (message of a failed
+        binding) and must be raised by a call made directly in the frame of the Builtin's function (where the wrappers
+        `fn(I, st, *a, **k)` hand the user's arguments to the model); TypeErrors raised deeper inside a model propagate."""
+        try:
+            yield from f.fn(self, st, list(args), dict(kwargs))
+        except TypeError as err:
+            tb = err.__traceback__
+            inner = tb.tb_next if tb is not None else None  # tb = this frame, inner = frame of f.fn (function or generator)
+            code = getattr(f.fn, "__code__", None)
+            if (
+                inner is not None
+                and inner.tb_next is None
+                and code is not None
+                and inner.tb_frame.f_code is code
+                and self._BINDING_ERROR.search(str(err))
+            ):
+                raise Unsupported("%s called with arguments its model does not accept (%s; positional %d, keywords %s)" % (
+                    f.name, err, len(args), sorted(kwargs))) from None
+            raise
 
     def instantiate(self, cls, args, kwargs, st):
         if cls.__dict__.get("_xmeta", 0) is not None or cls.__dict__.get("_is_xmeta", True):
